@@ -6,8 +6,13 @@ from common import *
 
 
 def check(tier, replay):
+    rep = vlib.Report("C07", tier, "model_checking")
+    model_flow("C07", tier, replay, spec="Bulk.tla", mods="ops_bulk", trace=("Trace_Bulk.tla", "Trace_Bulk.cfg"), mc=[],
+               gens=[("bulk: Vdatas of 1,000..160,000 records (13- and 92-byte records) around the 1,000,000-byte staging buffer; whole-table reads of field subsets in one and two calls, both buffer interlaces", "Gen_Bulk.tla", "Gen_Bulk_vs.cfg", "cover", {})],
+               mutators={"BulkVS", "BulkSD", "BulkHL"}, rep=rep, finish=False, part="bulk", tv_quick=1000, drive_timeout=600,
+               assumptions=["bulk part (specs/Bulk.tla): parameter sets around the internal staging thresholds; values by formula, every cell read back is compared by the driver"])
     return model_flow(
-        "C07", tier, replay, spec="VData.tla", mods="ops_h,ops_v", trace=("Trace_VData.tla", "Trace_VData.cfg"),
+        "C07", tier, replay, rep=rep, spec="VData.tla", mods="ops_h,ops_v", trace=("Trace_VData.tla", "Trace_VData.cfg"),
         mc=[("MC_VData.tla", "MC_VData.cfg")],
         gens=[("one behaviour per transition (4 schemas, <=4 records)", "Gen_VData.tla", "Gen_VData_cover.cfg", "cover", {"sample": 25000}),
               ("simulate depth 30 (<=40 records, block sizes 4..64)", "Gen_VData.tla", "Gen_VData_sim.cfg", "sim", {"num_quick": 2500, "num": 60000, "depth": 31})],
